@@ -217,41 +217,35 @@ def run(ck):
                   "the root pointer is cleared under %s: all remaining locks are forgotten while their nodes exist" % [(c[0], c[2]) for c in cond], f.loc(bi))
         ck.ob("DOM", f.path, "sites:root-clear", len(rootclr) == 1, "%d assignments root = None" % len(rootclr), f.loc(), nontrivial=False)
 
-    # stale handles
+    stale_handle_rules(ck, c)
     IS = E + "::v1::types::InstanceState::<'a, BackingStore>::"
-    handle_methods = []
-    for p in c.paths():
-        if p.startswith(IS):
-            for b in c.get_all(p):
-                if any(HANDLE_TYPES.search(t) for t in b.get("inputs", [])):
-                    handle_methods.append(Fn(b))
-    ck.floor("DOM", "handle-taking InstanceState methods", len(handle_methods), 8)
-    for f in sorted(handle_methods, key=lambda x: x.path):
-        comps = []
-        for cmpx in rules.comparisons(f):
-            oa = f.origins(cmpx["a"], deep=True)
-            ob = f.origins(cmpx["b"], deep=True)
-            if (has_call_origin(oa, r"::split$") and ("field", "current_generation") in ob) or (has_call_origin(ob, r"::split$") and ("field", "current_generation") in oa):
-                comps.append(cmpx)
-        if not ck.ob("CMP", f.path, "generation-compared", len(comps) == 1, "%d comparisons of the handle's generation with current_generation" % len(comps), f.loc()):
+
+    # handle ids are never reused within a generation: a handle table (`entry_mapping`, `iterators`) only grows by push, the id
+    # handed out is the table's length taken just before that push, and a slot is written afterwards only to retire it
+    # (`None` in iterator_delete). Reusing a retired slot makes the old handle valid again - for somebody else's iterator
+    IS = E + "::v1::types::InstanceState::<'a, BackingStore>::"
+    nh = 0
+    for p in sorted(c.paths()):
+        if not p.startswith(IS) or "{closure" in p:
             continue
-        cx = comps[0]
-        sw = [(sb, st) for (sb, st) in f.switches() if op_place(st["d"]) and op_place(st["d"])[0] == cx["res"]]
-        if not ck.ob("CMP", f.path, "generation-branched", len(sw) == 1, "the comparison is branched on", f.loc(cx["bb"])):
-            continue
-        sb, st = sw[0]
-        f_t = [tb for v, tb in st["t"] if v == "0"][0]
-        t_t = st["o"]
-        eq_t, ne_t = (f_t, t_t) if cx["op"] == "Ne" else (t_t, f_t)
-        users = [b for b in f.reachable() if block_fields(f, b) & {"entry_mapping", "iterators", "state_trie"}]
-        bad = [b for b in users if not f.dominates(eq_t, b)]
-        ck.ob("DOM", f.path, "stale-handle-refused", len(users) >= 1 and not bad,
-              "%d blocks touch entry_mapping/iterators/state_trie, all only reachable when the generation matches" % len(users) if not bad
-              else "block at %s uses handle tables without a generation match" % f.loc(bad[0]), f.loc(sb))
-        # the mismatch branch returns the invalid encoding (u32::MAX / NEW_ERR) without other work
-        stale = f.reach_from([ne_t], avoid={sb})
-        calls = [b for b in stale if f.term(b)["k"] == "call" and not callee_match(f.term(b), r"FromResidual|drop")]
-        ck.ob("DOM", f.path, "stale-branch-does-nothing", not calls, "the mismatch branch performs no calls before returning", f.loc(ne_t))
+        for b in c.get_all(p):
+            f = Fn(b)
+            for tbl in ("entry_mapping", "iterators"):
+                pushes_ = [(bi, t) for (bi, t) in f.calls(r"Vec::<T, A>::push$|Vec::<T>::push$") if ("field", tbl) in f.origins(t["args"][0], deep=True)]
+                if not pushes_:
+                    continue
+                nh += 1
+                lens = [bi for (bi, t) in f.calls(r"Vec::<T, A>::len$|Vec::<T>::len$") if ("field", tbl) in f.origins(t["args"][0], deep=True)]
+                ok_len = all(any(f.dominates(lb, pb) for lb in lens) for (pb, _) in pushes_)
+                # slot writes that store a live value (not the retiring None)
+                wr = []
+                for (bi, t) in f.calls(r"ops::IndexMut::index_mut$|::get_mut$|Vec::<.*>::(insert|swap_remove|remove)$|iter::Iterator::position$"):
+                    if t["args"] and ("field", tbl) in f.origins(t["args"][0], deep=True):
+                        wr.append(bi)
+                ck.ob("DEFUSE", f.path, "fresh-handle-id:%s" % tbl, ok_len and not wr,
+                      "new handles get the table length taken before the push; no slot is reused" if ok_len and not wr else
+                      "the %s table is also written by index / searched for a free slot in the function that creates handles: a retired id is handed out again and the old handle becomes valid for another object" % tbl, f.loc(wr[0]) if wr else f.loc(pushes_[0][0]))
+    ck.floor("DEFUSE", "handle-creating sites", nh, 4)
 
     # changed flag before mutation
     mutating = re.compile(r"MutableTrie::(insert|delete|delete_prefix|get_mut|set)$")
@@ -344,6 +338,48 @@ def run(ck):
             ck.ob("TAB", f.path, "tombstone-reads-absent", ok, "the Deleted arm yields None", f.loc())
 
     iterator_step_rules(ck, c)
+
+
+def stale_handle_rules(ck, c):
+    """handles of another generation are refused before any table is touched (shared by C15 and C14)"""
+    # stale handles
+    IS = E + "::v1::types::InstanceState::<'a, BackingStore>::"
+    handle_methods = []
+    for p in c.paths():
+        if p.startswith(IS):
+            for b in c.get_all(p):
+                if any(HANDLE_TYPES.search(t) for t in b.get("inputs", [])):
+                    handle_methods.append(Fn(b))
+    ck.floor("DOM", "handle-taking InstanceState methods", len(handle_methods), 8)
+    for f in sorted(handle_methods, key=lambda x: x.path):
+        comps = []
+        for cmpx in rules.comparisons(f):
+            oa = f.origins(cmpx["a"], deep=True)
+            ob = f.origins(cmpx["b"], deep=True)
+            if (has_call_origin(oa, r"::split$") and ("field", "current_generation") in ob) or (has_call_origin(ob, r"::split$") and ("field", "current_generation") in oa):
+                comps.append(cmpx)
+        if not ck.ob("CMP", f.path, "generation-compared", len(comps) == 1, "%d comparisons of the handle's generation with current_generation" % len(comps), f.loc()):
+            continue
+        cx = comps[0]
+        ck.ob("CMP", f.path, "generation-compared-for-equality", cx["op"] in ("Eq", "Ne"),
+              "the handle's generation must EQUAL the current one" if cx["op"] in ("Eq", "Ne") else
+              "the handle's generation is compared with `%s`: handles of an older (or newer) generation pass" % cx["op"], f.loc(cx["bb"]))
+        sw = [(sb, st) for (sb, st) in f.switches() if op_place(st["d"]) and op_place(st["d"])[0] == cx["res"]]
+        if not ck.ob("CMP", f.path, "generation-branched", len(sw) == 1, "the comparison is branched on", f.loc(cx["bb"])):
+            continue
+        sb, st = sw[0]
+        f_t = [tb for v, tb in st["t"] if v == "0"][0]
+        t_t = st["o"]
+        eq_t, ne_t = (f_t, t_t) if cx["op"] == "Ne" else (t_t, f_t)
+        users = [b for b in f.reachable() if block_fields(f, b) & {"entry_mapping", "iterators", "state_trie"}]
+        bad = [b for b in users if not f.dominates(eq_t, b)]
+        ck.ob("DOM", f.path, "stale-handle-refused", len(users) >= 1 and not bad,
+              "%d blocks touch entry_mapping/iterators/state_trie, all only reachable when the generation matches" % len(users) if not bad
+              else "block at %s uses handle tables without a generation match" % f.loc(bad[0]), f.loc(sb))
+        # the mismatch branch returns the invalid encoding (u32::MAX / NEW_ERR) without other work
+        stale = f.reach_from([ne_t], avoid={sb})
+        calls = [b for b in stale if f.term(b)["k"] == "call" and not callee_match(f.term(b), r"FromResidual|drop")]
+        ck.ob("DOM", f.path, "stale-branch-does-nothing", not calls, "the mismatch branch performs no calls before returning", f.loc(ne_t))
 
 
 def iterator_step_rules(ck, c):
